@@ -79,11 +79,13 @@ theorem C24_light_min_max_over (H : OpsOK) (Q : QueriesOK) (anno : Nat → SI) (
 
 /-! ## with the proved interval operations discharged
 
-`add, sub, neg, not, and, or, xor, concat, zero_extend, sign_extend, extract, udiv, shl, lshr, ashr`, the join of `If`, the eight
-orderings, `==` / `!=` and `*` are proved (C21, C22), so for these no hypothesis on interval operations is needed.  `OpsRest`
-(urem) is consulted only if the AST uses it.  `==` / `!=` / `*` go through the meet, which is sound on ALIGNED operands only
-(open findings `C2x/eq|ne|mul|intersection/unsound/unaligned-operand`): the guard `alBV` / `alB` says that the abstract
-operands at every `==` / `!=` / `*` node are aligned; it is void for ASTs without these nodes (`alBV_of_noEq`).  ASTs here have a
+EVERY interval operation the backend dispatches to is proved now (C21, C22): `add, sub, mul, udiv, urem, neg, not, and, or,
+xor, concat, zero_extend, sign_extend, extract, shl, lshr, ashr`, the join of `If`, the eight orderings, `==` / `!=`.  `OpsRest` is
+kept as a hypothesis slot of `convBV_rest_good` but no AST triggers it any more (`usesRestBV_false`), so `C24_sound` below has
+no hypothesis on interval operations.  `==` / `!=` / `*` go through the meet and `%` through `*`; the meet is sound on ALIGNED
+operands only (open findings `C2x/eq|ne|mul|intersection/unsound/unaligned-operand`): the guard `alBV` / `alB` says that the
+abstract operands at every `==` / `!=` / `*` node and the divisor at every `%` node are aligned; it is void for ASTs without
+these nodes (`alBV_of_noEq`).  ASTs here have a
 value at every node (`DefBV`); the annotations are in the form the constructor returns (`Nrm`, which is the only form Python
 holds), and the induction shows every intermediate abstract value has it too — that is what the signed orderings and the
 meet need. -/
@@ -99,7 +101,7 @@ theorem C24_convert_sound_rest (anno : Nat → SI) (env : Nat → Nat)
 
 /-- **unconditional on the interval operations** for ASTs built from the proved operations: variables with annotations,
 constants, `+ - neg ~ & | ^`, `ZeroExt`, `SignExt`, `Extract`, `Concat`, `/u`, `<<`, `LShR`, `>>` (arithmetic), `If`, the
-unsigned and signed orderings, the Boolean connectives, and `==` / `!=` / `*` under the alignment guard -/
+unsigned and signed orderings, the Boolean connectives, and `==` / `!=` / `*` / `%` under the alignment guard -/
 theorem C24_fragment_sound (anno : Nat → SI) (env : Nat → Nat)
     (hctx : ∀ i, (anno i).WF ∧ (anno i).mem (env i)) (hnrm : ∀ i, Nrm (anno i))
     (e : BV) (hfrag : usesRestBV e = false) (hdef : DefBV env e)
@@ -107,7 +109,23 @@ theorem C24_fragment_sound (anno : Nat → SI) (env : Nat → Nat)
     (v : Nat) (hv : evalBV env e = some v) : av.si.WF ∧ av.si.bits = wd e ∧ av.si.mem v :=
   C24_convert_sound_rest anno env hctx hnrm e (fun hh => by rw [hfrag] at hh; cases hh) hdef o o' hal av hwt h v hv
 
-/-- … without any guard when the AST has no `==` / `!=` / `*` node -/
+/-- **every AST**: the abstract value contains the concrete value, under the alignment guard at `==` / `!=` / `*` / `%` nodes
+(for ASTs with a value at every node, over normal annotations) -/
+theorem C24_sound (anno : Nat → SI) (env : Nat → Nat)
+    (hctx : ∀ i, (anno i).WF ∧ (anno i).mem (env i)) (hnrm : ∀ i, Nrm (anno i))
+    (e : BV) (hdef : DefBV env e) (o o' : Orders) (hal : alBV anno e o) (av : AV) (hwt : WTBV anno env e)
+    (h : convBV anno e o = .ok (av, o')) (v : Nat) (hv : evalBV env e = some v) :
+    av.si.WF ∧ av.si.bits = wd e ∧ av.si.mem v :=
+  C24_fragment_sound anno env hctx hnrm e (usesRestBV_false e) hdef o o' hal av hwt h v hv
+
+/-- … and every Boolean AST -/
+theorem C24_sound_bool (anno : Nat → SI) (env : Nat → Nat)
+    (hctx : ∀ i, (anno i).WF ∧ (anno i).mem (env i)) (hnrm : ∀ i, Nrm (anno i))
+    (c : BExp) (hdef : DefB env c) (o o' : Orders) (hal : alB anno c o) (br : BoolRes) (hwt : WTB anno env c)
+    (h : convB anno c o = .ok (br, o')) (b : Bool) (hb : evalB env c = some b) : br.has b = true :=
+  convB_rest_good anno env hctx hnrm c o br o' (fun hh => by rw [usesRestB_false c] at hh; cases hh) hal hdef hwt h b hb
+
+/-- … without any guard when the AST has no `==` / `!=` / `*` / `%` node -/
 theorem C24_fragment_noeq_sound (anno : Nat → SI) (env : Nat → Nat)
     (hctx : ∀ i, (anno i).WF ∧ (anno i).mem (env i)) (hnrm : ∀ i, Nrm (anno i))
     (e : BV) (hfrag : usesRestBV e = false) (hnoeq : usesEqBV e = false) (hdef : DefBV env e)
@@ -169,7 +187,7 @@ def demoEq : BV := .ite (.cmp .eq (.bin .and (.var 0 3) (.const 6 3)) (.const 4 
 example : usesRestBV demoEq = false ∧ alBV demoAnno demoEq [] := by
   refine ⟨by decide, ?_⟩
   simp only [demoEq, alBV, alB, true_and]
-  refine ⟨⟨(fun _ _ he => (by cases he)), ?_⟩, fun _ _ _ _ => trivial⟩
+  refine ⟨⟨(fun _ _ _ _ => ⟨(fun he => (by cases he)), (fun he => (by rcases he with he | he <;> cases he))⟩), ?_⟩, fun _ _ _ _ => trivial⟩
   intro p1 h1 _ p2 h2
   have e1 : p1 = ({ si := { bits := 3, stride := 1, lb := 2, ub := 6 } }, []) := by
     have : convBV demoAnno (.bin .and (.var 0 3) (.const 6 3)) [] = .ok ({ si := { bits := 3, stride := 1, lb := 2, ub := 6 } }, []) := by decide
